@@ -122,10 +122,13 @@ def float_space(m, degree, periodic, breaks, uniform_flag):
     return m['spl'].BSplines(kn, degree, periodic, uniform_flag)
 
 
+DECIDE_MS = [int(__import__('os').environ.get('VERIF_C07_DECIDE_MS', '15000'))]      # per-query budget (quick); main() raises it in the thorough tier
+
+
 def decide(ctx, cond, res, what):
     """verdict of `exists: cond` under the path condition: nlsat pipeline first (eliminates the k = m facts of
     concretised floors, then univariate/bivariate polynomial reasoning), z3's default combination as fall-back"""
-    s = symx.nra_solver(list(ctx.solver.assertions()) + [cond], 15000)
+    s = symx.nra_solver(list(ctx.solver.assertions()) + [cond], DECIDE_MS[0])
     t = time.time()
     r = str(s.check())
     for st_ in (symx.GLOBAL, ctx.stats):
@@ -136,7 +139,9 @@ def decide(ctx, cond, res, what):
         return r, s.model()
     if r == 'unsat':
         return r, None
+    ctx.solver.set('timeout', max(ctx.timeout_ms, DECIDE_MS[0]))
     r = ctx.check(cond)
+    ctx.solver.set('timeout', ctx.timeout_ms)
     return r, (ctx.model() if r == 'sat' else None)
 
 
@@ -916,6 +921,9 @@ def main():
                                sef.nu_eval_spline_2d_vector,
                                spl.make_knots, spl.BSplines.__init__, spl.BSplines.__getitem__, spl.Spline1D.eval,
                                spl.Spline1D.eval_vector, spl.Spline2D.eval, spl.Spline2D.eval_vector)
+    if run.tier == 'thorough':
+        DECIDE_MS[0] = 180000          # the symbolic-break-point queries of degree 4 sit near the quick budget on a loaded machine
+        __import__('os').environ['VERIF_C07_DECIDE_MS'] = '180000'
     c1, c2 = configs(run.tier)
     for cn in CANARIES:
         if cn[1] == 'cuf':
